@@ -67,11 +67,13 @@ func C06_Bytes() {
 		n = 2
 	} else {
 		// thorough: all ten contexts with two bytes, plus three arbitrary
-		// bytes after `print `
-		k := verif.Choice("context", len(c06Contexts)+1)
+		// bytes in five of them (after a number the lexer converts an
+		// arbitrary three-byte character to a string, 61440 values: outside
+		// what the engine enumerates)
+		k := verif.Choice("context", len(c06Contexts)+5)
 		ctx, n = k, 2
-		if k == len(c06Contexts) {
-			ctx, n = 1, 3
+		if k >= len(c06Contexts) {
+			ctx, n = []int{1, 3, 7, 0, 9}[k-len(c06Contexts)], 3
 		}
 	}
 	payload := verif.Bytes("payload", n)
